@@ -116,7 +116,7 @@ def select_family(f):
     if f.b != 'sqlite' and f.opt('lock'): calls.append(['lock', 'Update'])
     return {'k': 'select', 'calls': calls}
 
-INSERT_TOGGLES = ['rows', 'cols', 'select', 'conflict', 'cwhere', 'returning', 'cte', 'defaults']
+INSERT_TOGGLES = ['rows', 'cols', 'select', 'conflict', 'cwhere', 'returning', 'cte', 'defaults', 'dnfirst']
 
 def insert_family(f):
     calls = [['into_table', ['t', 't']]]
@@ -143,7 +143,9 @@ def insert_family(f):
         calls.append(['on_conflict', {'target': ['cols', [cols[0]]], 'calls': [['do_nothing_on', [cols[0]]] if f.opt('dokeys') else ['do_nothing']]}])
     elif f.opt('conflict'):
         n, v = f.val()
-        oc = {'target': ['cols', [cols[0]]], 'calls': [['update_column', cols[-1]], ['value', 'k_%d' % n, ['val', v]]]}
+        # a DO NOTHING requested first is replaced by the later update calls (the last action wins)
+        first = [['do_nothing']] if f.opt('dnfirst') else []
+        oc = {'target': ['cols', [cols[0]]], 'calls': first + [['update_column', cols[-1]], ['value', 'k_%d' % n, ['val', v]]]}
         if f.b != 'mysql' and f.opt('cwhere'): oc['calls'].append(['action_and_where', f.cmp()])
         calls.append(['on_conflict', oc])
     if f.b != 'mysql' and f.opt('returning'): calls.append(['returning_exprs', [f.cmp()]])
